@@ -18,6 +18,8 @@ type C10Case struct {
 	// Muts: mutations applied directly to nested containers (through their own handles) between
 	// repeated reads of the same path; every read must agree with stepwise navigation at that time
 	Muts []CloneMut `json:"muts,omitempty"`
+	// Derived > 0: every Derived-th nested container is a user-defined derived type
+	Derived int `json:"derived,omitempty"`
 }
 
 // tfKeys: non-empty, sigil-free keys (the only keys tree form can address).
@@ -277,8 +279,11 @@ func GenC10(t *rapid.T) *C10Case {
 	if drawBool(t, "variant") {
 		c.Build = 1 + genRaw(t)
 	}
+	if oneIn(t, 5, "derived") {
+		c.Derived = drawInt(t, 1, 3, "every")
+	}
 	if oneIn(t, 3, "rereads") {
-		ops := []string{"add", "insert", "replace", "delete", "pop", "clear", "reverse", "set", "unset", "oclear"}
+		ops := []string{"add", "insert", "replace", "delete", "pop", "clear", "reverse", "set", "unset", "oclear", "noop"}
 		for i, n := 0, drawInt(t, 1, 3, "nmuts"); i < n; i++ {
 			c.Muts = append(c.Muts, CloneMut{Node: genRaw(t), Op: ops[drawIdx(t, len(ops), "mop")], A: genRaw(t),
 				Key: tfKeys[drawIdx(t, len(tfKeys), "mkey")], V: genValSpec(t, 2)})
@@ -398,6 +403,11 @@ func CheckC10(c *C10Case, st *Stats) error {
 		return nil
 	}
 	root := BuildVariant(c.Root, c.Build)
+	if c.Derived > 0 {
+		n := 0
+		root = buildDerived(c.Root, c.Derived, &n, true)
+		st.Count("with_derived_nested")
+	}
 	st.Count("class." + c.Class)
 	outcome, err := c10Read(root, c, st, "")
 	if err != nil {
